@@ -78,10 +78,7 @@ func attemptMatches(in *Inv, a AttSnap, timeoutNs int64) string {
 			if a.Err.Msg != e.errMsg {
 				return "recorded error message differs from the plugin's"
 			}
-			if in.Outcome == Transient && (a.Err.Code != 7 || a.Err.Wrapped == nil || a.Err.Wrapped.Code != 8 || a.Err.Wrapped.Msg != "inner cause") {
-				return "recorded error code / wrapped chain differs from the plugin's"
-			}
-			if in.Outcome == Permanent && (a.Err.Code != 9 || a.Err.Wrapped == nil || a.Err.Wrapped.Wrapped == nil || a.Err.Wrapped.Wrapped.Msg != "root") {
+			if !errEqual(a.Err, snapErr(scriptedError(in.Outcome, in.Path, in.K))) {
 				return "recorded error code / wrapped chain differs from the plugin's"
 			}
 		}
